@@ -470,9 +470,28 @@ func compare(s *Script, r *Result) []Diff {
 				}
 			}
 		default:
-			// failure after the first reply: HTTP cannot change the status
-			// line any more and the representation of the late status is not
-			// documented; only the replies (above) are compared.
+			// Failure after the first reply: HTTP cannot change the status
+			// line any more; larking ends the stream with the
+			// google.rpc.Status of the failure after the replies. A failing
+			// call must not look like a successful one, and the status it
+			// ends with must be the back-end's.
+			switch {
+			case pc.Extra == 0:
+				add("http-stream-end", nClass(s), "the stream of a call that fails directly with %s (%q) after %d replies ends like a successful one: HTTP %d, %d replies, nothing after them",
+					codes.Code(dc.Code), dc.Msg, len(dc.Responses), pc.HTTPStatus, len(pc.Responses))
+			case pc.Extra > 1:
+				add("http-stream-end", nClass(s), "%d values after the %d replies of a failing call (one status expected)", pc.Extra, len(pc.Responses))
+			default:
+				if pc.Code != dc.Code {
+					add("status-code", nClass(s), "google.rpc.Status after the replies has code %d, back-end failed with %d", pc.Code, dc.Code)
+				}
+				if pc.Msg != dc.Msg {
+					add("status-message", msgClass(s), "status message after the replies %q, directly %q", pc.Msg, dc.Msg)
+				}
+				if !reflect.DeepEqual(pc.Details, dc.Details) {
+					add("status-details", detClass(s), "status details after the replies %v, directly %v", pc.Details, dc.Details)
+				}
+			}
 		}
 		return ds
 	}
@@ -549,7 +568,7 @@ func setup(r *mon.Run) {
 		"Each script runs twice (direct / through larking); distinct = front x shape x plan family x message count x outcome x half-close-seen x metadata class."
 	r.Floor = 40
 	r.Assume("grpc-go client/server (direct run) define the reference behaviour of a call script")
-	r.Assume("google.rpc.Code -> HTTP status table of google/rpc/code.proto (CANCELLED: 499 or 408) for HTTP fronts; for failures after the first reply only the replies are compared on HTTP")
+	r.Assume("google.rpc.Code -> HTTP status table of google/rpc/code.proto (CANCELLED: 499 or 408) for HTTP fronts; a failure after the first reply ends the HTTP stream with the google.rpc.Status of the failure after the replies (what the unchanged tree sends)")
 	r.Assume("response headers/trailers and transport-level metadata are not compared (not part of the statement)")
 	r.Assume("WebSocket: a client close frame is an abort on this transport (locally registered handlers receive an error, not io.EOF), so only server-ended plans are used; the close frame is compared with a locally registered handler's")
 }
